@@ -364,6 +364,11 @@ class AttributeCollection(MutableMapping[int, Attribute]):
         # since index() is used for equality comparisons. See lab/benchmark_attr_index.py
         if not self._idx:
             idx = ''.join(self._generate_text())
+            if Attribute.CODE.AS_PATH in self and ' as-path' not in idx:
+                # an empty AS_PATH prints nothing, so "as-path [ ]" and no as-path at all shared an index although they
+                # do not pack alike (the default path is only added when there is none): queued in one window of the
+                # outgoing RIB, both routes left with the attributes of one of them
+                idx += ' as-path [ ]'
             nexthop = str(self.get(Attribute.CODE.NEXT_HOP, 'missing'))
             text = '{} next-hop {}'.format(idx, nexthop) if nexthop else idx
             self._idx = text.encode()
